@@ -138,7 +138,7 @@ def stepStat (args pyout : Sexp) : String :=
         | .list (.atom "slice" :: ts) => do
           let ts ← ts.mapM triple?
           let sub ← normSlices sh ts
-          some (.slice sub (subMask sub))
+          some (.slice sub)
         | e => (sel? e).map fun s => .mask (s.eval sh data)
       match viewO, selO with
       | some (vk, v), some sel =>
@@ -184,7 +184,7 @@ def stepStat (args pyout : Sexp) : String :=
             if chunked then (if sel.isNone then "chunked-nosel" else "chunked-masked")
             else match sel with
               | .none => "nosel"
-              | .slice _ _ => if vk == .none then "slice-shortcut" else "masked-slice-state"
+              | .slice _ => if vk == .none then "slice-shortcut" else "masked-slice-state"
               | .mask _ => "masked"
           let br2 := match sel with
             | .none => ""
